@@ -246,3 +246,28 @@ def run(ctx, rep, tier):
     rep.check("start_node[DFTransition.Else].fallthrough().attach(self.important_action)" in isrc and "DFTransition(on_values=[DFTransition.Else]).fallthrough().attach(*self.following_actions)" in isrc
               and "interrupt_node.transition(trans)" in isrc, "C01.h", "InterruptableActionNode.convert", "yield: the interrupting action on one proxy step, the following actions on the next",
               "yield proxy construction changed")
+
+
+def _shared(ctx, rep, tier):
+    """C01.i: the default pipeline includes the optimiser and the delete/assign templates: their necessary conditions (C05.a-c) are
+    also necessary for C01 at the optimisation levels that enable them."""
+    from ..core import Report
+    from . import c05
+    rep.rule("C01.i", "optimiser rewrites keep action order / never cross proxies / translate Else by the right states; `delete` and `s = \"\"` agree (shared with C05.a-c)")
+    sub = Report("C05")
+    c05.run(ctx, sub, tier)
+    n = 0
+    for v in sub.violations:
+        if v.rule in ("C05.a", "C05.b", "C05.c"):
+            rep.bad("C01.i", v.function, v.construct, v.message, v.extra, v.line)
+            n += 1
+    if not n:
+        rep.ok("C01.i", "DfaCompileCtx._optimize_shortcircuit_fallthroughs", f"{sum(sub.instances.get(r, 0) for r in ('C05.a', 'C05.b', 'C05.c'))} shared instances hold")
+
+
+_run0 = run
+
+
+def run(ctx, rep, tier):
+    _run0(ctx, rep, tier)
+    _shared(ctx, rep, tier)
